@@ -1197,6 +1197,12 @@ func c14(mode, in, out string) error {
 		return runCases(in, out, c14ReplayCase)
 	case "record":
 		return c14Record(in, out)
+	case "objects":
+		return c14ObjectsMode(in, out)
+	case "objrecord":
+		return c14ObjRecord(in, out)
+	case "concurrent":
+		return c14Concurrent(in, out)
 	}
 	return fmt.Errorf("c14: unknown mode %s", mode)
 }
